@@ -161,6 +161,11 @@ where
                                 }
                             }
 
+                            if !job_broker.is_open() {
+                                log::debug!("{}: Market closed. Shutting down...", t);
+                                return;
+                            }
+
                             // Step 2: Share work.
                             if pending.len() > 1 && thread_count > 1 {
                                 job_broker.split_and_push(&mut pending);
